@@ -80,7 +80,13 @@ def run(p, led, tier):
         return c, ctxs
 
     def triples(c):
-        return frozenset((w, b, rr) for w, lst in c.fields["dependency_graph"].fields["edges"].items() for (b, rr) in lst)
+        def pair(e):
+            # an edge is a (blocker, resource) pair: a plain tuple, or a record (NamedTuple / dataclass) whose first two fields are
+            if isinstance(e, Obj):
+                vs = list(e.fields.values())
+                return vs[0], vs[1]
+            return e[0], e[1]
+        return frozenset((w,) + pair(e) for w, lst in c.fields["dependency_graph"].fields["edges"].items() for e in lst)
 
     def expected(kind, g, old_owner=None):
         G = set(g)
